@@ -136,35 +136,50 @@ theorem state_tracked_when_off (st : EcuState) (h : List Exchange) :
 
 /-! ### the concurrent system leaves exactly these rows -/
 
-/-- **no loss on cancellation, for every interleaving.**  Run the system from history `h` under *any* schedule of
-    producer steps, consumer steps (`get`, `commit`) and a cancellation / failure of the run at any point — between
-    two exchanges (`cancel`) or at an await inside one (`cancelIn`) — and then `disconnect()`: the database holds
-    exactly the rows of the exchanges performed up to that point, once each, in order; and those exchanges are a
-    prefix of `h` (followed, for `cancelIn`, by the interrupted exchange recorded without reply and exception). -/
-theorem no_loss_on_cancel (h : List Exchange) (sched : List Choice) (hr : Choice.retry ∉ sched) :
+/-- **exactly once and in order under every fault pattern, every interleaving, every cancellation point.**  Run the
+    system from history `h` under *any* schedule of producer steps, consumer steps (`get`, `commit`), write failures of
+    the consumer (`retry`: its `execute` raises `OperationalError`; `commitFail`: its `commit` does - any number of
+    times, for any row) and a cancellation / failure of the run at any point - between two exchanges (`cancel`) or at an
+    await inside one (`cancelIn`) - and then `disconnect()`: the database holds exactly the rows of the exchanges performed
+    up to that point, once each, in order; and those exchanges are a prefix of `h` (followed, for `cancelIn`, by the
+    interrupted exchange recorded without reply and exception). -/
+theorem rows_eq_history_under_faults (h : List Exchange) (sched : List Choice) :
     afterDisconnect (exec (Sys.init h) sched) = specRows .init 0 (exec (Sys.init h) sched).done ∧
     PrefixOrCancelled h (exec (Sys.init h) sched).done := by
   refine ⟨?_, performed_prefix h sched⟩
   rw [afterDisconnect_eq]
-  exact ((Inv.init h).exec sched hr).rows
+  exact ((Inv.init h).exec sched).rows
 
-/-- the same with write failures (`OperationalError`, the row is re-queued at the tail) at any point of the schedule:
-    still every performed exchange exactly once — no loss, no duplicate — but the order may change (witness below) -/
+/-- **no loss on cancellation, for every interleaving** (the schedules without write failures; corollary of
+    `rows_eq_history_under_faults`, kept under its old name) -/
+theorem no_loss_on_cancel (h : List Exchange) (sched : List Choice) (_hr : Choice.retry ∉ sched) :
+    afterDisconnect (exec (Sys.init h) sched) = specRows .init 0 (exec (Sys.init h) sched).done ∧
+    PrefixOrCancelled h (exec (Sys.init h) sched).done :=
+  rows_eq_history_under_faults h sched
+
+/-- with write failures at any point of the schedule: every performed exchange exactly once - no loss, no duplicate
+    (corollary of `rows_eq_history_under_faults`, which also gives the order; kept under its old name) -/
 theorem no_loss_with_retries (h : List Exchange) (sched : List Choice) :
     (afterDisconnect (exec (Sys.init h) sched)).Perm (specRows .init 0 (exec (Sys.init h) sched).done) ∧
     PrefixOrCancelled h (exec (Sys.init h) sched).done := by
-  refine ⟨?_, performed_prefix h sched⟩
-  rw [afterDisconnect_eq]
-  exact ((PInv.init h).exec sched).rows
+  have := rows_eq_history_under_faults h sched
+  exact ⟨this.1 ▸ List.Perm.refl _, this.2⟩
 
-/-- when the producer got through the whole history (whatever the consumer did meanwhile), the database holds
-    exactly one row per logged exchange of the history, in order -/
-theorem rows_eq_history_any_schedule (h : List Exchange) (sched : List Choice) (hr : Choice.retry ∉ sched)
+/-- when the producer got through the whole history - whatever the consumer did meanwhile, whichever of its writes failed
+    how often - the database holds exactly one row per logged exchange of the history, in order -/
+theorem rows_eq_history_any_faults (h : List Exchange) (sched : List Choice)
     (hall : (exec (Sys.init h) sched).todo = []) (hrun : (exec (Sys.init h) sched).stopped = false) :
     afterDisconnect (exec (Sys.init h) sched) = specRows .init 0 h := by
   have hp := ((Prog.init h).exec sched).1 hrun
   rw [hall, List.append_nil] at hp
-  rw [(no_loss_on_cancel h sched hr).1, hp]
+  rw [(rows_eq_history_under_faults h sched).1, hp]
+
+/-- when the producer got through the whole history (whatever the consumer did meanwhile), the database holds
+    exactly one row per logged exchange of the history, in order -/
+theorem rows_eq_history_any_schedule (h : List Exchange) (sched : List Choice) (_hr : Choice.retry ∉ sched)
+    (hall : (exec (Sys.init h) sched).todo = []) (hrun : (exec (Sys.init h) sched).stopped = false) :
+    afterDisconnect (exec (Sys.init h) sched) = specRows .init 0 h :=
+  rows_eq_history_any_faults h sched hall hrun
 
 /-- the canonical run (producer to the end, consumer idle until `disconnect`) -/
 theorem rows_eq_history (h : List Exchange) : afterDisconnect (runAll h) = specRows .init 0 h := by
@@ -192,8 +207,9 @@ theorem rows_eq_history (h : List Exchange) : afterDisconnect (runAll h) = specR
 theorem join_waits_for_all (h : List Exchange) (sched : List Choice) :
     (exec (Sys.init h) sched).unfinished = 0 ↔
       (exec (Sys.init h) sched).queue = [] ∧ (exec (Sys.init h) sched).inflight = none := by
-  have hc : Counted (exec (Sys.init h) sched) := Counted.exec (by simp [Counted, Sys.init]) sched
-  unfold Counted at hc
+  have hc : Counted (exec (Sys.init h) sched) :=
+    Counted.exec (by simp [Counted, Writer.Counted, Sys.init, Writer.empty]) sched
+  unfold Counted Writer.Counted at hc
   rw [hc]
   cases hq : (exec (Sys.init h) sched).queue <;> cases hi : (exec (Sys.init h) sched).inflight <;> simp
 
@@ -276,9 +292,23 @@ example :
         ⟨.emphasized, ⟨3, none⟩, [0x22, 0xF1, 0x90], 4, none, none, some [0x4D]⟩,
         ⟨.implicit, ⟨3, some 1⟩, [0x3E, 0x00], 8, none, none, none⟩ ] := by decide
 
-/-- a write failure that re-queues a row at the tail *can* reorder rows (why `retry` is excluded above) -/
+/-- write failures leave the order alone: the second row's `execute` fails twice, then its `commit` once -/
 example :
-    afterDisconnect (exec (Sys.init [ex1, ex2]) [.prod, .prod, .get, .retry]) ≠ specRows .init 0 [ex1, ex2] := by decide
+    afterDisconnect (exec (Sys.init [ex1, ex2, ex4]) [.prod, .prod, .get, .commit, .prod, .get, .retry, .retry, .commitFail]) =
+      specRows .init 0 [ex1, ex2, ex4] ∧
+    (exec (Sys.init [ex1, ex2, ex4]) [.prod, .prod, .get, .commit, .prod, .get, .retry, .retry, .commitFail]).retries = 3 := by
+  decide
+
+/-- why the repair of the writer was needed (`Writer.legacyStep` is the consumer before the `fix:` commits): a failed
+    `execute` re-queued the row at the tail, behind the row of a later exchange ... -/
+example :
+    let w := (((Writer.empty.put 1).put 2).step .get).legacyStep .retry
+    w.all = [2, 1] := by decide
+
+/-- ... and a row whose `commit` had failed was executed a second time: it is in the table twice -/
+example :
+    let w := ((((Writer.empty.put 1).put 2).step .get).legacyStep .commitFail)
+    w.all = [1, 2, 1] := by decide
 
 /-- a cancellation that hits `disconnect()` itself while it waits for the queue is *not* covered by
     `no_loss_on_cancel`: the model of that path loses the queued rows (known finding `c11:rows-lost:at=cancel-join`) -/
